@@ -96,8 +96,10 @@ claim("C07", "must-pass-through on MIR (validation dominates constant constructi
       "canonical_felt252 on the felt252 branch), division and remainder are reached only after the zero-divisor test that reports "
       "DivisionByZero, the div_rem quotient is validated; in the lowering const folder folded felt252 results pass canonical_felt252 / "
       "field_div and folded checked-integer results pass TypeRange::normalized with the arm selected from its result (two reasoned "
-      "exceptions: wide_mul, bounded_int_add/sub)." + DECIDES + " Agreement of the BigInt arithmetic with the libfuncs on values "
-      "(division rounding, remainder sign, conversions) is not decided.",
+      "exceptions: wide_mul, bounded_int_add/sub); every quotient / remainder computed on constants in either evaluator is of the truncating "
+      "family (the one DivRem::div_rem and its run-time projections `/` and `%` use), and a compile-time remainder comes from a div_rem whose "
+      "quotient is validated." + DECIDES + " Agreement of the remaining BigInt arithmetic with the libfuncs on values (conversions, shifts, "
+      "wrapping) is not decided. One genuine defect found by these rules (`MIN % -1` accepted at compile time) was repaired in /repo (fix: commit 303bcdf).",
       "trusted: rustc MIR, fact dumper; assumes validate_literal and canonical_felt252 implement the type ranges / the field correctly",
       "DESIGN.md section 4, C07")
 claim("C09", "call-graph reachability + panic-site inventory; interprocedural typestate dataflow of the parser look-ahead over MIR; abstract interpretation of the parser / lexer on an unchanged look-ahead (progress of loops and recursion)",
@@ -131,7 +133,9 @@ claim("C11", "path rules on MIR: must-pass-through inside loops, control depende
       "token unless should_skip_terminal holds; format_trivia matches every trivium kind, each comment kind reaches push_comment with the "
       "trivium's text and skipped tokens/nodes are emitted; should_skip_terminal can return true only under an equality test of the node's "
       "kind with TerminalComma, TerminalEmpty, TerminalSemicolon or TerminalColonColon; use-merging and sorting are called only under their "
-      "configuration flags; nodes with ignored formatting keep their original text." + DECIDES +
+      "configuration flags; nodes with ignored formatting keep their original text; a routine that rewrites a list of child nodes either moves "
+      "whole nodes only or selects / drops / duplicates / re-parses nodes under a has_only_whitespace_trivia guard covering every affected node "
+      "(over the whole rewritten list, or per node with failing nodes left intact)." + DECIDES +
       " Idempotence and re-parsability of the output (line-breaking search) are not decided.",
       "trusted: rustc MIR, fact dumper; assumes LineBuilder::push_str/push_comment append their argument",
       "DESIGN.md section 4, C11")
